@@ -1975,6 +1975,8 @@ func (t *tScreen) UnregisterRuneFallback(orig rune) {
 }
 
 func (t *tScreen) CanDisplay(r rune, checkFallbacks bool) bool {
+	t.Lock()
+	defer t.Unlock()
 
 	if enc := t.encoder; enc != nil {
 		nb := make([]byte, 6)
@@ -2013,11 +2015,13 @@ func (t *tScreen) HasKey(k Key) bool {
 }
 
 func (t *tScreen) SetSize(w, h int) {
+	t.Lock()
 	if t.setWinSize != "" {
 		t.TPuts(t.ti.TParm(t.setWinSize, w, h))
 	}
 	t.cells.Invalidate()
 	t.resize()
+	t.Unlock()
 }
 
 func (t *tScreen) Resize(int, int, int, int) {}
@@ -2116,6 +2120,9 @@ func (t *tScreen) disengage() {
 	// wait for everything to shut down
 	t.wg.Wait()
 
+	t.Lock()
+	defer t.Unlock()
+
 	// shutdown the screen and disable special modes (e.g. mouse and bracketed paste)
 	ti := t.ti
 	t.cells.Resize(0, 0)
@@ -2147,7 +2154,9 @@ func (t *tScreen) disengage() {
 
 // Beep emits a beep to the terminal.
 func (t *tScreen) Beep() error {
+	t.Lock()
 	t.writeString(string(byte(7)))
+	t.Unlock()
 	return nil
 }
 
